@@ -2,6 +2,7 @@ import Rdpgw.Oracle.Codec
 import Rdpgw.Props.C02
 import Rdpgw.Props.C04
 import Rdpgw.Props.C15
+import Rdpgw.Props.C13
 
 /-! Oracle commands for policy and tokens: `checkhost`, `installed`, `clientaddr`, `cookie`. -/
 
@@ -65,5 +66,21 @@ def cmdTokenInfo (m : List (String × String)) : String :=
   let res : Bytes → Option Bytes := fun _ => if get m "verdict" = "refuse" then none else some (getHex m "verdict")
   let r := tokenInfo (getBool m "get") param res
   s!"{r.1} {b01 r.2.isSome}"
+
+end Rdpgw.Oracle
+
+namespace Rdpgw.Oracle
+
+open Rdpgw Rdpgw.Oidc in
+/-- `oidc-callback state=<age|none> code= idtok= verifies= claims= user=<hex|none> at=<hex> sess=0|1 suser=<hex>` -/
+def cmdOidcCallback (m : List (String × String)) : String :=
+  let f : Facts :=
+    { stateIssuedAgo := optNat m "state", codeOk := getBool m "code", hasIdToken := getBool m "idtok",
+      verifies := getBool m "verifies", claimsParse := getBool m "claims",
+      userClaim := if get m "user" = "none" then none else some (getHex m "user"),
+      accessToken := getHex m "at" }
+  let s : Session := ⟨getBool m "sess", getHex m "suser", []⟩
+  let r := callback f s
+  s!"{r.1} auth={b01 r.2.authenticated} user={hexOf r.2.user} connect={connect r.2}"
 
 end Rdpgw.Oracle
